@@ -362,6 +362,8 @@ class RefBackend:
         return out
 
     def gt(self, v, thr):
+        if abs(T.val(v) - thr) <= 1e-7 * max(1.0, abs(thr)):
+            raise Borderline()
         return T.val(v) > thr
 
     def gather(self, idxs, coefs, style):
@@ -389,18 +391,28 @@ class RefBackend:
 
     def closure(self, mode, a, p, b, thr, after_failure=False):
         av, pv = T.val(a), T.val(p)
+        if abs(pv - thr) <= 1e-7 * max(1.0, abs(thr)):
+            raise Borderline()
         if pv > thr:  # d/dy [a y^2 + b y] at y = p  =  2 a p + b
             return self.tape.apply(("closure", None), 2.0 * av * pv + T.val(b), [(a, 2.0 * pv), (p, 2.0 * av), (b, 1.0)]), True
         return 0.0, False  # d/dy [a b] = 0 exactly, a constant for every enclosing level
 
     def count(self, v):
-        return int(math.floor(abs(T.val(v)) * 2.0)) % 3 + 1
+        t = abs(T.val(v)) * 2.0
+        if abs(t - round(t)) <= 1e-7 * max(1.0, t):
+            raise Borderline()
+        return int(math.floor(t)) % 3 + 1
 
     def scale(self, v, w):
         return self.tape.apply(("scale", None), T.val(v) * w, [(v, w)])
 
     def add(self, a, b):
         return self.tape.apply(("add", None), T.val(a) + T.val(b), [(a, 1.0), (b, 1.0)])
+
+
+class Borderline(Exception):
+    """The reference run decided a branch or a loop count within rounding error of the threshold: autograd's (differently associated)
+    arithmetic may legitimately decide the other way, after which the two runs are different programs."""
 
 
 def close(a, b, rel=1e-10):
@@ -427,6 +439,8 @@ def body(max_ops, c):
     rb.inputs = rin
     try:
         rout, rtrace = interpret(prog, rin, rb)
+    except Borderline:
+        return Outcome("numpy_rejects", detail="control flow decided within rounding error of its threshold", sample=sample)
     except (OverflowError, ValueError, ZeroDivisionError):
         # the reference itself left the floats (inf / nan after values blew up in a loop): not a usable program
         return Outcome("numpy_rejects", detail="reference overflow (values blow up in a loop)", sample=sample)
